@@ -142,8 +142,15 @@ def run(c):
     body = HDR + "Definition cs := %s.\nDefinition M := Eval vm_compute in failing usage_ok cs.\nPrint M.\n" % coq_list(items)
     for i in nums(c.coq_eval("usage", body))[:20]:
         dis.append({"relation": "usage_ok (checkUsage vs usage_status)", "case": uc[i], "observed": uo[i]})
-    for x in uc:
+    for x, o in zip(uc, uo):
         c.count(("usage", tuple(sorted(x.items()))), klass="usage")
+        # the property in its own words: beyond the bound (by however little) is Time / Memory Limit Exceeded, the measurement is reported as measured
+        t_ns, mem = x["sec"] * 10 ** 9 + x["usec"] * 1000, x["maxrss"] << 10
+        want = 3 if mem > x["ml"] else 2 if t_ns > x["tl"] else 1
+        if mem < 1 << 63 and t_ns < 1 << 62 and (o["status"] != want or o["time"] != t_ns or o["mem"] != mem):
+            c.finding_or_violation({"kind": "usage", "what": "measured usage against the bounds: wrong verdict or measurement", "over_time_by_ns": t_ns - x["tl"],
+                                    "expected_status": want, "status": o["status"]}, {"case": x, "observed": o}, klass="usage")
+            break
 
     # ---------------------------------------------------------------- real runs
     rc = []
